@@ -202,7 +202,7 @@ def tlc_trace(module, trace_path, workdir, cfg=None):
     cmd = ['java', '-cp', TLAJAR, '-DTLA-Library=' + os.path.join(VERIF, 'spec'), 'tlc2.TLC', '-workers', '1',
            '-metadir', meta, '-config', cfg or (module + '.cfg'), module + '.tla']
     try:
-        rc, o = sh(cmd, timeout=3000, env=env, cwd=os.path.join(VERIF, 'trace'))
+        rc, o = sh(cmd, timeout=6000, env=env, cwd=os.path.join(VERIF, "trace"))
     except subprocess.TimeoutExpired:
         raise MachineryError('TLC timed out on ' + trace_path)
     shutil.rmtree(meta, ignore_errors=True)
